@@ -33,6 +33,7 @@ def dispatch (m : String) (j : Json) : Except String Json :=
   | "defaults" => defaultsJ j
   | "pmap" => pmapJ j
   | "pmaptrace" => pmapTraceJ j
+  | "pmapfault" => pmapFaultJ j
   | "codec" => codecJ j
   | "writer" => writerJ j
   | _ => .error s!"unknown model {m}"
